@@ -276,7 +276,10 @@ Vector Spherical_Coordinates(double r, double theta, double phi, const Vector& a
 		return Spherical_Coordinates(r, theta, phi);
 	else
 	{
-		double aux = sqrt(1.0 - pow(ev[2], 2.0));
+		double aux = sqrt(ev[0] * ev[0] + ev[1] * ev[1]);
+		// Axis antiparallel to the z axis: The frame constructed below is undefined, use the mirrored z-aligned frame instead.
+		if(aux == 0.0)
+			return Spherical_Coordinates(r, M_PI - theta, M_PI - phi);
 
 		double cos_theta = cos(theta);
 		double sin_theta = sqrt(1.0 - cos_theta * cos_theta);
